@@ -213,10 +213,26 @@ def gen_case(S: Any, rng: Any, n_ops: int, allow_raise: bool) -> dict:
     kind = rng.choice(S.KINDS)
     ref = S.PySpec(kind)
     ops = []
-    for _ in range(n_ops):
-        op = S.gen_op(rng, kind, ref.data, ref.held is not None, allow_raise)
+    def put(op: list) -> None:
         ops.append(op)
         ref.do(op)
+
+    def snap_of_empty() -> None:
+        # a snapshot taken while the store holds nothing (fresh store / right after clear), mutated and then NOT
+        # written back: the store must still be empty afterwards
+        put(["getstate"])
+        for _ in range(rng.randrange(1, 3)):
+            put(S.gen_op_mutsnap(rng, kind))
+        if rng.random() < 0.7:
+            put(["get", S.gen_path(rng, ref.data, kind, False), S.NODEF])
+
+    if rng.random() < 0.15:
+        snap_of_empty()
+    while len(ops) < n_ops:
+        op = S.gen_op(rng, kind, ref.data, ref.held is not None, allow_raise)
+        put(op)
+        if op[0] == "clear" and rng.random() < 0.4:
+            snap_of_empty()
     return {"kind": kind, "ops": ops}
 
 
